@@ -47,17 +47,17 @@ def iter_cases(dump_path):
 def run(ctx):
     tier = ctx.tier
     # 1. machine = definition on the whole bounded domain
-    r = ctx.tlc_must_pass('InfluxQLFn', f'InfluxQLFn.MC_{tier}.cfg', timeout=1500, coverage=True, workers=8)
+    r = ctx.tlc_must_pass('InfluxQLFn', f'InfluxQLFn.MC_{tier}.cfg', timeout=1500, coverage=True, workers=min(8, vlib.NCPU))
     ctx.check_coverage(r, ACTIONS)
     # 2. sensitivity of the invariant on the model: the scan of mode() as it is at the pinned commit (ModeQuirk = TRUE)
     #    must be rejected by MachineFollowsDefinition (a model-only counterexample is a lead: the replay below decides)
-    lead = ctx.tlc('InfluxQLFn', 'InfluxQLFn.ModeLead.cfg', timeout=300, workers=4, count=False)
+    lead = ctx.tlc('InfluxQLFn', 'InfluxQLFn.ModeLead.cfg', timeout=300, workers=min(4, vlib.NCPU), count=False)
     if lead.timed_out or lead.violated != 'MachineFollowsDefinition':
         raise vlib.Inconclusive('vacuity guard: the pinned-commit mode() scan is not rejected on the model: '
                                 + lead.stdout[-800:])
     ctx.extra_cov['model_lead_mode_scan_at_pinned_commit'] = 'rejected by MachineFollowsDefinition (InfluxQLFn.ModeLead.cfg)'
     # 3. every case state -> replay on the real code
-    g = ctx.tlc_must_pass('InfluxQLFn', f'InfluxQLFn.Gen_{tier}.cfg', timeout=1500, dump=True, count=False, workers=4)
+    g = ctx.tlc_must_pass('InfluxQLFn', f'InfluxQLFn.Gen_{tier}.cfg', timeout=1500, dump=True, count=False, workers=min(4, vlib.NCPU))
     cases_path = ctx.tmp('cases.ndjson')
     total = 0
     per_fn = {}
@@ -85,7 +85,7 @@ def run(ctx):
     ctx.extra_cov['cases_per_function'] = per_fn
     ctx.extra_cov['concretisations_per_case'] = nconc
     ctx.rule = ('every state of InfluxQLFn Gen (function x parameter x GROUP BY time width x series of <= MaxLen points '
-                'over timestamps 0..MaxT with values -2..2) replayed under `concretisations_per_case` concretisations '
+                'over timestamps 0..MaxT with the cfg\'s values: quick -1..1 with <= 4 points, thorough -2..2 with <= 5 points) replayed under `concretisations_per_case` concretisations '
                 '(integer and float field always; value scale 2^k, time unit, base time, with/without WHERE time); '
                 'non-trivial = series with >= 2 points, distinct by (function, parameter, width, series)')
     ctx.assumptions += [
